@@ -1,45 +1,36 @@
 (* Properties/C17conn.v — the Conn half of C17: a response cut off at any byte yields an error,
    never a panic, hang or fake data.  Only statements; every proof is [exact <lemma>].
    The incoming stream of the model ends where the peer closed the connection:
-   [firstn k frame] = the first k bytes of the response, then end-of-stream. *)
+   [firstn k frame] = the first k bytes of the response, then end-of-stream.
+   Fetch is ReadBatch followed by Batch.Close without reading a message (what ReadMessage
+   delivers before the error is the message-set reader's business: C02's model; the harness
+   checks it directly on the implementation, see checks/c11.py PART C). *)
 From Coq Require Import List NArith ZArith Bool.
 From KV Require Import Lib.Bits Lib.Bytes Model.Legacy Model.ConnOps.
 From KV Require Import Proofs.ConnOpsBase Proofs.ConnOpsCodec Proofs.ConnOpsProofs Proofs.ConnOpsWitness
-  Proofs.ConnOpsCustom.
+  Proofs.ConnOpsCustom Proofs.ConnOpsAll.
 Import ListNotations.
 Open Scope Z_scope.
 
-(* ---- the full statement: every operation and version, every well-formed response, every
-   cut position: a non-Kafka error and the Conn closes itself.  NOT true of the current
-   code for ApiVersions, for error responses of produce / fetch cut in their unread tail,
-   and for ReadBatch+Close without reading (witnesses below). ---- *)
-Definition C17_conn_cut_full_statement : Prop :=
-  forall a v w st off k,
-    well_formed a v w -> fits (enc (resp_ty a v) w) -> closed st = false ->
-    (k < length (frame (wrap32 (corr st + 1)) (enc (resp_ty a v) w)))%nat ->
-    exists e st2 s2,
-      conn_do st (mkOp a v off) (firstn k (frame (wrap32 (corr st + 1)) (enc (resp_ty a v) w)))
-        = (st2, RErr e, s2) /\ is_kafka e = false /\ closed st2 = true.
-
-(* proved for every operation that reads its whole response before looking at error codes
-   (all but produce, fetch, list-offsets, ApiVersions; for produce and list-offsets see
-   C17_conn_cut_of_success), every version, every cut position:
-   the error is io.EOF or io.ErrUnexpectedEOF (never success, never a Kafka error, never a
-   panic outcome) and the Conn is closed *)
-Theorem C17_conn_cut_partial : forall st a v off w k,
-  schema_api a = true -> wt (resp_ty a v) w -> fits (enc (resp_ty a v) w) -> closed st = false ->
+(* ---- every operation of Conn, every negotiated version, every well-formed response (any
+   error codes, any values), every cut position k < length frame: the call returns an error
+   that is not a Kafka error — never success, never a panic outcome (the model's EPanic is a
+   non-Kafka error and is not reachable here, see C17_conn_cut_consumed for its kind) — and the
+   Conn has closed its connection ---- *)
+Theorem C17_conn_cut : forall st a v off w k,
+  negotiated a v = true -> well_formed a v w -> fits (enc (resp_ty a v) w) -> closed st = false ->
   (k < length (frame (wrap32 (corr st + 1)) (enc (resp_ty a v) w)))%nat ->
   exists e st2 s2,
     conn_do st (mkOp a v off) (firstn k (frame (wrap32 (corr st + 1)) (enc (resp_ty a v) w)))
-      = (st2, RErr e, s2) /\ transport e = true /\ closed st2 = true.
-Proof. exact conn_cut_schema. Qed.
-Print Assumptions C17_conn_cut_partial.
+      = (st2, RErr e, s2) /\ is_kafka e = false /\ closed st2 = true.
+Proof. exact conn_cut_full. Qed.
+Print Assumptions C17_conn_cut.
 
-(* every operation but fetch and ApiVersions (so including produce and list-offsets), ANY
-   incoming bytes: a cut strictly inside what the complete exchange consumed yields
-   io.EOF / io.ErrUnexpectedEOF and closes the Conn *)
+(* the kind of the error, for ANY incoming bytes and every operation: a cut strictly inside
+   what the complete exchange consumed yields io.EOF / io.ErrUnexpectedEOF (for fetch always
+   io.ErrUnexpectedEOF, never the io.EOF that means "end of batch") and closes the Conn *)
 Theorem C17_conn_cut_consumed : forall st o s st' r s' k,
-  closed st = false -> op_api o <> AFetch -> op_api o <> AApiVersions ->
+  closed st = false ->
   conn_do st o s = (st', r, s') ->
   (k + length s' < length s)%nat ->
   exists e st2 s2,
@@ -47,27 +38,16 @@ Theorem C17_conn_cut_consumed : forall st o s st' r s' k,
 Proof. exact conn_do_cut. Qed.
 Print Assumptions C17_conn_cut_consumed.
 
-(* every operation but fetch and ApiVersions, any response on which the complete exchange
-   succeeds (for produce and list-offsets: every well-formed response without an error code,
-   C11_produce_total): every cut position yields io.EOF / io.ErrUnexpectedEOF and the Conn closes *)
-Theorem C17_conn_cut_of_success : forall st o id body st' x s' k,
-  closed st = false -> op_api o <> AFetch -> op_api o <> AApiVersions -> fits body ->
-  conn_do st o (frame id body) = (st', ROk x, s') ->
-  (k < length (frame id body))%nat ->
-  exists e st2 s2,
-    conn_do st o (firstn k (frame id body)) = (st2, RErr e, s2) /\ transport e = true /\ closed st2 = true.
-Proof. exact conn_cut_of_ok. Qed.
-Print Assumptions C17_conn_cut_of_success.
-
-(* list-offsets v1: every well-formed response (with or without an error code), every cut *)
-Theorem C17_conn_cut_listoffsets : forall st off w k,
-  well_formed AListOffsets 1 w -> fits (enc (resp_ty AListOffsets 1) w) -> closed st = false ->
-  (k < length (frame (wrap32 (corr st + 1)) (enc (resp_ty AListOffsets 1) w)))%nat ->
-  exists e st2 s2,
-    conn_do st (mkOp AListOffsets 1 off) (firstn k (frame (wrap32 (corr st + 1)) (enc (resp_ty AListOffsets 1) w)))
-      = (st2, RErr e, s2) /\ transport e = true /\ closed st2 = true.
-Proof. exact conn_cut_listoffsets. Qed.
-Print Assumptions C17_conn_cut_listoffsets.
+(* a cut at or beyond what the complete exchange consumed (only possible when that exchange
+   itself failed before the end of its frame) gives the same result as the complete exchange *)
+Theorem C17_conn_cut_beyond : forall st o s st' r s' k,
+  closed st = false -> (8 <= k)%nat ->
+  conn_do st o s = (st', r, s') ->
+  get_bes 4 (firstn 4 s) - 4 <= Z.of_nat (length s) - 8 ->
+  (length s <= k + length s')%nat ->
+  exists s2, conn_do st o (firstn k s) = (st', r, s2).
+Proof. exact conn_do_cut_beyond. Qed.
+Print Assumptions C17_conn_cut_beyond.
 
 (* the decoder of a well-formed response returns what was encoded and consumes exactly it *)
 Theorem C17_conn_decode_exact : forall t w, wt t w -> forall sz rest,
@@ -83,49 +63,43 @@ Theorem C17_conn_no_reuse : forall st ops s,
 Proof. exact closed_run. Qed.
 Print Assumptions C17_conn_no_reuse.
 
-(* ---- fetch (ReadBatch, then Batch.Close without reading a message): a cut inside the fetch
-   header or the first message header yields io.ErrUnexpectedEOF (not io.EOF) and closes the
-   Conn; nothing is delivered ---- *)
-Theorem C17_conn_cut_fetch_header_witness : forall k, (k < 67)%nat ->
+(* ---- regression instances: the cuts that were swallowed before the fixes ---- *)
+(* fetch, 77-byte frame with one magic-1 message: every cut (header, first message header, the
+   part Batch.close discards) is io.ErrUnexpectedEOF and the Conn is closed *)
+Theorem C17_conn_regression_fetch : forall k, (k < 77)%nat ->
   exists st' s', conn_do (fresh [116%N]) (mkOp AFetch 2 7)
                    (firstn k (frame 1 (enc (resp_ty AFetch 2) w_fetch_ok_v2)))
                  = (st', RErr EUnexpEOF, s') /\ closed st' = true.
-Proof. exact fetch_cut_header. Qed.
-Print Assumptions C17_conn_cut_fetch_header_witness.
+Proof. exact fetch_cut_anywhere. Qed.
+Print Assumptions C17_conn_regression_fetch.
 
-(* ---- refutations of the full statement ---- *)
-(* ReadBatch+Close with the cut after the first message header: Batch.close ignores the error
-   of msgs.discard(), returns nil and keeps the Conn *)
-Theorem C17_conn_cut_refuted_fetch_close : forall k, (67 <= k < 77)%nat ->
-  exists st' s', conn_do (fresh [116%N]) (mkOp AFetch 2 7)
-                   (firstn k (frame 1 (enc (resp_ty AFetch 2) w_fetch_ok_v2)))
-                 = (st', ROk (VL [VZ 0; VZ 100]), s') /\ closed st' = false.
-Proof. exact fetch_close_swallows_cut. Qed.
-Print Assumptions C17_conn_cut_refuted_fetch_close.
-
-(* ApiVersions: io.EOF, but the Conn does not close its connection *)
-Theorem C17_conn_cut_refuted_apiversions : forall k, (8 <= k < 18)%nat ->
+(* ApiVersions: io.EOF and the Conn is closed *)
+Theorem C17_conn_regression_apiversions : forall k, (k < 20)%nat ->
   exists st' s', conn_do (fresh []) (mkOp AApiVersions 0 0)
                    (firstn k (frame 1 (enc (resp_ty AApiVersions 0) w_apiversions)))
-                 = (st', RErr EEOF, s') /\ closed st' = false.
-Proof. exact apiversions_cut_not_closed. Qed.
-Print Assumptions C17_conn_cut_refuted_apiversions.
+                 = (st', RErr EEOF, s') /\ closed st' = true.
+Proof. exact apiversions_cut_closed. Qed.
+Print Assumptions C17_conn_regression_apiversions.
 
-(* produce error response cut inside the throttle field the reader never reads (F2): the
-   Kafka error is returned and the Conn kept *)
-Theorem C17_conn_cut_refuted_produce_error :
+(* produce error response cut inside the trailing throttle field *)
+Theorem C17_conn_regression_produce_error : forall k, (41 <= k < 45)%nat ->
   exists st' s',
     conn_do (fresh [116%N]) (mkOp AProduce 2 0)
-      (firstn 43 (frame 1 (enc (resp_ty AProduce 2) w_produce_v2)))
-    = (st', RErr (EKafka 6), s') /\ closed st' = false.
+      (firstn k (frame 1 (enc (resp_ty AProduce 2) w_produce_v2)))
+    = (st', RErr EEOF, s') /\ closed st' = true.
 Proof. exact produce_error_cut_in_throttle. Qed.
-Print Assumptions C17_conn_cut_refuted_produce_error.
+Print Assumptions C17_conn_regression_produce_error.
 
 (* ---- non-vacuity ---- *)
 Example C17_conn_nonvacuous_fetch_full :
+  well_formed AFetch 2 w_fetch_ok_v2 /\
+  length (frame 1 (enc (resp_ty AFetch 2) w_fetch_ok_v2)) = 77%nat /\
   conn_do (fresh [116%N]) (mkOp AFetch 2 7) (frame 1 (enc (resp_ty AFetch 2) w_fetch_ok_v2))
   = (mkConn false 1 [116%N] 7, ROk (VL [VZ 0; VZ 100]), []).
-Proof. exact fetch_full_ok. Qed.
+Proof.
+  split; [|split; [vm_compute; reflexivity|exact fetch_full_ok]].
+  split; [unfold w_fetch_ok_v2, one_tp, topic_t, msgset_v1; wt_solve|cbn; repeat eexists].
+Qed.
 
 Definition w_offsetfetch : wval :=
   WL (Some [WP (WS (Some [116%N])) (WL (Some [WP (WZ 0) (WP (WZ 42) (WP (WS None) (WZ 0)))]))]).
